@@ -21,6 +21,20 @@ static bool edn_has_duplicates_linear(edn_value_t** elements, size_t count) {
     return false;
 }
 
+/* Order by (cached) hash. Equal values hash equal, so after sorting every pair
+ * of equal elements lies within one run of identical hashes. (Ordering by
+ * edn_value_compare is not enough: it orders collections, tagged and external
+ * values by address, which leaves equal composites apart.) */
+static int edn_compare_by_hash(const void* a_ptr, const void* b_ptr) {
+    uint64_t hash_a = edn_value_hash(*(edn_value_t* const*) a_ptr);
+    uint64_t hash_b = edn_value_hash(*(edn_value_t* const*) b_ptr);
+    if (hash_a < hash_b)
+        return -1;
+    if (hash_a > hash_b)
+        return 1;
+    return 0;
+}
+
 static bool edn_has_duplicates_sorted(edn_value_t** elements, size_t count) {
     edn_value_t** temp = malloc(count * sizeof(edn_value_t*));
     if (temp == NULL) {
@@ -28,14 +42,18 @@ static bool edn_has_duplicates_sorted(edn_value_t** elements, size_t count) {
     }
 
     memcpy(temp, elements, count * sizeof(edn_value_t*));
-    qsort(temp, count, sizeof(edn_value_t*), edn_value_compare);
+    qsort(temp, count, sizeof(edn_value_t*), edn_compare_by_hash);
 
     bool has_dups = false;
-    for (size_t i = 0; i < count - 1; i++) {
-        if (edn_value_equal(temp[i], temp[i + 1])) {
-            has_dups = true;
-            break;
+    size_t run_start = 0;
+    while (run_start < count && !has_dups) {
+        uint64_t run_hash = edn_value_hash(temp[run_start]);
+        size_t run_end = run_start + 1;
+        while (run_end < count && edn_value_hash(temp[run_end]) == run_hash) {
+            run_end++;
         }
+        has_dups = edn_has_duplicates_linear(temp + run_start, run_end - run_start);
+        run_start = run_end;
     }
 
     free(temp);
